@@ -95,6 +95,53 @@ theorem prepareDown_none_iff {s e sz al : Nat} (hal : 0 < al) (hsz : al ∣ sz) 
     Spec.prepareDown s e sz al = none ↔ ¬ ∃ q, al ∣ q ∧ s ≤ q ∧ q + sz ≤ e :=
   Lemmas.prepareDown_none_iff hal hsz
 
+/-! ## Corollaries: "fits" is monotone in the free range and is the same question for every entry point -/
+
+/-- Growing the free range at its end never turns a request that fits into one that does not (up). -/
+theorem bumpUp_fits_mono {s e e' sz al ma ma' : Nat} (hal : 0 < al) (he : e ≤ e')
+    (h : Spec.bumpUp s e sz al ma ≠ none) : Spec.bumpUp s e' sz al ma' ≠ none := by
+  intro h'
+  rw [bumpUp_none_iff hal] at h'
+  apply h
+  rw [bumpUp_none_iff hal]
+  rintro ⟨q, h1, h2, h3⟩
+  exact h' ⟨q, h1, h2, by omega⟩
+
+/-- Growing the free range at its start never turns a request that fits into one that does not (down). -/
+theorem bumpDown_fits_mono {s s' e sz al ma : Nat} (hal : 0 < al) (hma : 0 < ma) (hdvd : al ∣ ma ∨ ma ∣ al)
+    (hs : s' ≤ s) (h : Spec.bumpDown s e sz al ma ≠ none) : Spec.bumpDown s' e sz al ma ≠ none := by
+  intro h'
+  rw [bumpDown_none_iff hal hma hdvd] at h'
+  apply h
+  rw [bumpDown_none_iff hal hma hdvd]
+  rintro ⟨q, h1, h2, h3, h4⟩
+  exact h' ⟨q, h1, h2, by omega, h4⟩
+
+/-- Upwards, the minimum alignment never decides whether a request fits (it only rounds the new position,
+    and the end of the range is a multiple of it): the answer is `none` for one minimum alignment iff for all. -/
+theorem bumpUp_fits_minAlign_independent {s e sz al ma ma' : Nat} (hal : 0 < al) :
+    Spec.bumpUp s e sz al ma = none ↔ Spec.bumpUp s e sz al ma' = none := by
+  rw [bumpUp_none_iff hal, bumpUp_none_iff hal]
+
+/-- A prepared allocation (what the `Mut*` collections use) is refused exactly when the plain allocation of the
+    same layout would be refused (up). -/
+theorem prepareUp_none_iff_bumpUp_none {s e sz al ma : Nat} (hal : 0 < al) :
+    Spec.prepareUp s e sz al = none ↔ Spec.bumpUp s e sz al ma = none := by
+  rw [prepareUp_none_iff hal, bumpUp_none_iff hal]
+
+/-- The same downwards, for a minimum alignment that divides the layout alignment (then every `al`-aligned
+    address is `ma`-aligned, so the two questions coincide). -/
+theorem prepareDown_none_iff_bumpDown_none {s e sz al ma : Nat} (hal : 0 < al) (hma : 0 < ma) (hsz : al ∣ sz)
+    (hd : ma ∣ al) :
+    Spec.prepareDown s e sz al = none ↔ Spec.bumpDown s e sz al ma = none := by
+  rw [prepareDown_none_iff hal hsz, bumpDown_none_iff hal hma (Or.inr hd)]
+  constructor
+  · rintro h ⟨q, h1, _, h3, h4⟩; exact h ⟨q, h1, h3, h4⟩
+  · rintro h ⟨q, h1, h3, h4⟩; exact h ⟨q, h1, Nat.dvd_trans hd h1, h3, h4⟩
+
+/-- Non-vacuity of the corollaries: a request that fits in [16, 48) and therefore in [16, 64). -/
+example : Spec.bumpUp 16 48 24 8 1 ≠ none ∧ Spec.bumpUp 16 64 24 8 16 ≠ none := by decide
+
 /-! ## Non-vacuity: concrete inputs meeting the hypotheses -/
 
 def exUp : BumpProps :=
